@@ -256,6 +256,7 @@ class Path:
         self.side = []      # (name, z3 bool, node) definedness obligations met on the way (division, sqrt ...)
         self.assumed = []   # asserts in code treated as assumptions (recorded)
         self.fresh = itertools.count()
+        self.decided = {}
         self.qfacts = []    # quantified facts met on the path, instantiated on demand (symstruct)
 
     def decide(self, c):
@@ -264,6 +265,12 @@ class Path:
             return True
         if z3.is_false(c):
             return False
+        # a condition already decided on this path (hash-consed identical term, or its negation) does not fork again
+        key = c.get_id()
+        if key in self.decided:
+            return self.decided[key]
+        if z3.is_not(c) and c.arg(0).get_id() in self.decided:
+            return not self.decided[c.arg(0).get_id()]
         i = len(self.taken)
         if i < len(self.prefix):
             choice = self.prefix[i]
@@ -271,6 +278,7 @@ class Path:
             choice = True
             self.alternatives.append(self.taken + [False])
         self.taken.append(choice)
+        self.decided[key] = choice
         self.pc.append(c if choice else z3.Not(c))
         if self.solver_check is not None and not self.solver_check(self.pc):
             raise Infeasible()
@@ -329,6 +337,9 @@ class Interp:
         self.call_hooks = {}     # qualified name -> hook(interp, fobj, args, kwargs) replacing the body (callee contracts)
         self.trace = []
         self.depth = 0
+        self.loop_hooks = {}     # id(loop node) -> handler(interp, node, env): loop contracts (generic iteration, invariants)
+        self.expr_hooks = {}     # id(expr node) -> handler(interp, node, env): summarised comprehensions
+        self.assign_hooks = {}   # variable name -> handler(interp, value) -> value: abstraction of loop-carried containers
 
     # -------------------------------------------------------------- modules / classes
     def load_module(self, source, name, preset=None):
@@ -463,6 +474,9 @@ class Interp:
 
     def assign(self, t, v, env):
         if isinstance(t, ast.Name):
+            h = self.assign_hooks.get(t.id)
+            if h is not None:
+                v = h(self, v)
             env.set(t.id, v)
         elif isinstance(t, (ast.Tuple, ast.List)):
             vs = self.unpack(v, len(t.elts), t)
@@ -531,6 +545,9 @@ class Interp:
                 self.exec_block(st.finalbody, env)
 
     def st_For(self, st, env):
+        h = self.loop_hooks.get(id(st))
+        if h is not None:
+            return h(self, st, env)
         it = self.iterate(self.eval(st.iter, env), st)
         broke = False
         for x in it:
@@ -546,6 +563,9 @@ class Interp:
             self.exec_block(st.orelse, env)
 
     def st_While(self, st, env):
+        h = self.loop_hooks.get(id(st))
+        if h is not None:
+            return h(self, st, env)
         n = 0
         while self.truth(self.eval(st.test, env)):
             n += 1
@@ -576,6 +596,9 @@ class Interp:
 
     # -------------------------------------------------------------- expressions
     def eval(self, node, env):
+        h = self.expr_hooks.get(id(node))
+        if h is not None:
+            return h(self, node, env)
         m = getattr(self, "ex_" + type(node).__name__, None)
         if m is None:
             raise OutOfSubset(f"expression {type(node).__name__} (line {getattr(node, 'lineno', '?')})")
